@@ -113,10 +113,13 @@ func (c *VirtualTable) BestIndex(input *sqlite.IndexInfoInput) (*sqlite.IndexInf
 		return nil, toSqlite(err)
 	}
 	used := make([]*sqlite.ConstraintUsage, len(indexIn))
+	argc := 0
 	for i := range indexOut.Used {
 		if indexOut.Used[i] {
+			// argv positions must be dense: 1..number of used constraints
+			argc++
 			used[i] = &sqlite.ConstraintUsage{
-				ArgvIndex: i + 1,
+				ArgvIndex: argc,
 				//Omit: true, // no known cases where this doesn't work, but...
 			}
 		}
